@@ -300,6 +300,9 @@ def worker(part, acc):
 
 
 def run(ctx):
+    from ..seams import validate as _validate_seams
+
+    seam_report = _validate_seams(PROP)  # real random sources under a recorder: every API reached must be modelled (else exit 2)
     its = list(items(ctx.tier))
     k = ctx.jobs * 8
     shards = [its[i::k] for i in range(k)]
@@ -310,6 +313,7 @@ def run(ctx):
     ctx.sample({"edges": [list(e) for e in it[0]], "weights": it[1], "isolated": list(it[2]), "K": it[3], "normalizeU": it[4], "n_realizations": it[5], "max_iter": it[6],
                 "min_value_par": it[7], "all_update_orders": it[8], "max_non_identity_orders": it[9]})
     cov = {
+        "seam_validation": seam_report,
         "evaluations": ev, "distinct_nontrivial": len(nt), "exhaustive": True, "distinct_outcomes": len(oc), "configurations": len(its),
         "rule": "hypergraphs with 2-3 hyperedges of size 2-3 over the labels {2,5,7,11} (+ isolated nodes, a weighted one, one with node 13 isolated); K=2; "
                 "normalizeU F/T; min_value_par in {1e-5, 0}; scripted RandomState: initial matrices from a 3-pattern menu (every combination when all orders are enumerated, otherwise counted as deviations), the node-update "
